@@ -10,7 +10,7 @@ from ..flow import ForwardFlow
 from ..model import AnchorMissing, Func, Undecided, bind_args, dotted, norm, walk_no_nested
 from ..report import Ctx
 from ..variants import Variant
-from .resultrun import PARAM_OF_SCENARIO, SCENARIOS, ResultInterp, Tagged, build_edge_case_handler, build_zero_tp_handler, call_method, metric_objs, reducer_verdict, scenario_of
+from .resultrun import PARAM_OF_SCENARIO, SCENARIOS, ResultInterp, Tagged, build_edge_case_handler, build_zero_tp_handler, call_method, metric_objs, reducer_verdict, scenario_of, obj_attr
 
 INFO = {
     "explanation": "The edge-case classes are run abstractly on symbolic results: (R08.2) MetricZeroTPEdgeCaseHandling.__init__ on all 32 given/None patterns binds each scenario to its own parameter or the default; (R08.1) its __call__ on the sign classes of (tp,n_pred,n_ref) returns the scenario's value and never reaches the trailing raise; (R08.3) EdgeCaseHandler.handle_zero_tp dispatches to the handler of that metric with uncrossed counts; (R08.5/R08.6) PanopticaResult.__init__ run end-to-end on symbolic handlers: for tp=0 every list metric's AVG is the handler value of the realised scenario and STD the empty-list value, for tp>0 the handler has no influence; (R08.4) typestate of panoptic_evaluate: matching and evaluation are reached only in zero-checked state, _handle_zero_instances_cases returns tp=0/empty lists/uncrossed counts in each empty class; (R08.7) calculate_all swallows every exception of a derived metric. Delegated: the decision step really yields tp=0 for 'instances on both sides without a match' (R02.1, incl. thresholds equal to 0). Delegated: the final result receives the pair's own instance counts (pipeline wiring R01.2). R08.4 runs the zero-instance helper on symbolic counts and evaluates each path's result on the grid {0,1,2,3,7}^2 restricted to the points satisfying the path's decisions (comparisons with constants <= 3, verified). Further: R08.5 also with a handler that prescribes None; delegated R04.2 (an unmatched prediction is never relabelled onto a reference label), R15.8/R15.3 (handlers share no container), R12.2 (the arrays of a class group are the restriction of the caller's own prediction / reference, also for groups present on one side only - otherwise the wrong zero-TP scenario is realised). Round 7: every setting the zero-instance helper receives has a value of its own and must reach the result constructor under its own name.",
@@ -155,7 +155,7 @@ def check_result_constructor(ctx: Ctx):
         lm_n = o_n.attrs.get("_list_metrics")
         for m in metrics[:3]:
             e = lm_n.get(m) if isinstance(lm_n, dict) else None
-            avg = e.attrs.get("AVG", "?") if isinstance(e, Obj) else "?"
+            avg = obj_attr(prog, e, "AVG", "?") if isinstance(e, Obj) else "?"
             ctx.decide("R08.5", init, init.node, cn + f":metric={m.attrs['_name_']}", "a prescribed None reaches the aggregate (AVG) as None, not as another value", avg is None, {"got": repr(avg)})
     need = ["reference_arr", "prediction_arr", "num_pred_instances", "num_ref_instances", "tp", "list_metrics", "edge_case_handler"]
     for x in need:
@@ -197,7 +197,7 @@ def check_result_constructor(ctx: Ctx):
             if not isinstance(e, Obj):
                 ctx.violated("R08.5", init, init.node, construct, "evaluated metric has no list-metric entry", None)
                 continue
-            avg, std, allv = e.attrs.get("AVG"), e.attrs.get("STD"), e.attrs.get("ALL")
+            avg, std, allv = obj_attr(prog, e, "AVG"), obj_attr(prog, e, "STD"), obj_attr(prog, e, "ALL")
             n += 1
             if sc is not None:
                 want = Sym(f"H_{name}.{sc}.value")
